@@ -9,15 +9,11 @@
        regular-mode sample (t87_regular_roundtrip), run-length (t87_run_length_roundtrip) and
        run-interruption sample (t87_interruption_roundtrip) applied to the bits the coded
        encoder wrote recover exactly what the encoder coded, stored and updated.
-   Missing for t87_agrees_statement: the line-level lockstep, i.e. (1) the invariant that ties
-   the two state representations over a scan (context bounds 1 <= N <= 64, A <= N*2^16,
-   -N < B <= 0 for the 365 contexts; they are preserved because |Errval| <= RANGE/2),
-   (2) equality of the causal templates: neighbors1 / sampleNeighbors with prevFirstPrev,
-   prevNeg1 (previousLineFirst, previousPreviousLineFirst) on windows of (dummy :: prev) versus
-   t87_template on windows of the extended line c_left :: prev ++ [last], (3) the induction over
-   t87_line / t87_lines for one and three components, (4) t87_segments on the encoders' headers
-   and the equality of the two output containers. The harness runs the extracted t87_decode
-   against Go on every generated stream (C14 oracle). *)
+   The full statement is proved on top of (c) in JlsProofsT87Line (one component: state
+   invariant, template equality, line and lines lockstep), JlsProofsT87Line3 (sample-interleaved
+   three components) and JlsProofsT87Stream (headers, bit unstuffing, output container:
+   t87_agrees : t87_agrees_statement). The harness also runs the extracted t87_decode against Go
+   on every generated stream (C14 oracle). *)
 From V Require Import Common.Base JpegLS.JlsParams JpegLS.JlsGolomb JpegLS.JlsRun JpegLS.JlsModel JpegLS.JlsT87Dec.
 From V Require Import JpegLS.JlsProofsParams JpegLS.JlsProofsGolomb JpegLS.JlsProofsWriter JpegLS.JlsProofsSample
                       JpegLS.JlsProofsRun JpegLS.JlsProofsNear0 JpegLS.JlsProofsInterrupt.
@@ -34,6 +30,7 @@ Definition t87_agrees_statement : Prop :=
   forall w h comps P near pixelData stream lim,
     1 <= w <= 65535 -> 1 <= h <= 65535 -> comps = 1 \/ comps = 3 -> 2 <= P <= 16 ->
     0 <= near <= near_max P -> w * h * comps <= lim ->
+    zlen (pixelsToIntegers P pixelData) = w * h * comps ->
     Forall (in_range P) (pixelsToIntegers P pixelData) ->
     jlsn_encode w h comps P near pixelData = Ok stream ->
     t87_result_eq (t87_decode lim stream) (jlsn_decode lim stream).
@@ -47,19 +44,25 @@ Lemma t87_med_eq : forall a b c, t87_med a b c = Predict a b c.
 Proof. reflexivity. Qed.
 
 (* context number and sign: 81 Q1 + 9 Q2 + Q3 after sign normalisation = |qs|, SIGN = sign of qs *)
-Lemma t87_context_eq : forall q1 q2 q3,
+Lemma t87_context_eq_all : forall q1 q2 q3,
   -4 <= q1 <= 4 -> -4 <= q2 <= 4 -> -4 <= q3 <= 4 ->
   let qs := (q1 * 9 + q2) * 9 + q3 in
-  qs <> 0 ->
   t87_context q1 q2 q3 = (sgn_of qs, Z.abs qs).
 Proof.
-  intros q1 q2 q3 H1 H2 H3 qs Hq. subst qs. unfold t87_context, sgn_of.
+  intros q1 q2 q3 H1 H2 H3 qs. subst qs. unfold t87_context, sgn_of.
   destruct (Z.eqb_spec q1 0) as [E1|N1]; cbn [negb].
   - subst q1. destruct (Z.eqb_spec q2 0) as [E2|N2]; cbn [negb].
     + subst q2. destruct (Z.ltb_spec q3 0); destruct (Z.ltb_spec ((0 * 9 + 0) * 9 + q3) 0); try lia; f_equal; lia.
     + destruct (Z.ltb_spec q2 0); destruct (Z.ltb_spec ((0 * 9 + q2) * 9 + q3) 0); try lia; f_equal; lia.
   - destruct (Z.ltb_spec q1 0); destruct (Z.ltb_spec ((q1 * 9 + q2) * 9 + q3) 0); try lia; f_equal; lia.
 Qed.
+
+Lemma t87_context_eq : forall q1 q2 q3,
+  -4 <= q1 <= 4 -> -4 <= q2 <= 4 -> -4 <= q3 <= 4 ->
+  let qs := (q1 * 9 + q2) * 9 + q3 in
+  qs <> 0 ->
+  t87_context q1 q2 q3 = (sgn_of qs, Z.abs qs).
+Proof. intros q1 q2 q3 H1 H2 H3 qs _. apply t87_context_eq_all; assumption. Qed.
 
 Lemma t87_clip_eq : forall p v, t87_clip p v = CorrectPrediction p v.
 Proof. reflexivity. Qed.
@@ -301,11 +304,10 @@ Definition ctx_rel (t : t87ctx) (c : rctx) : Prop := tA t = cA c /\ tB t = cB c 
    wrote for a sample reconstructs what the encoder stored and makes the corresponding context
    update. Context bounds: N >= 1, 0 <= A <= N * 2^16 and A, |B| below 2^23 (they hold on every
    encoder stream; they make the coded cap k < 16 and the overflow guard of UpdateContext inert). *)
-Theorem t87_regular_roundtrip : forall P near c t st ra rb rc rd x rest ops c' stored,
+Theorem t87_regular_roundtrip_all : forall P near c t st ra rb rc rd x rest ops c' stored,
   2 <= P <= 16 -> 0 <= near <= near_max P -> 0 <= x <= 2 ^ P - 1 ->
   let p := jls_params P near in
   let qs := context_qs p ra rb rc rd in
-  qs <> 0 ->
   nth (Z.to_nat (Z.abs qs)) (ts_ctx st) (mkT87Ctx 0 0 0 0) = t -> ctx_rel t c ->
   1 <= cN c -> 0 <= cA c <= cN c * 65536 -> cA c < 8388608 -> Z.abs (cB c) < 8388608 ->
   regular_enc PkNear true p c qs ra rb rc x = (ops, c', stored) ->
@@ -314,7 +316,7 @@ Theorem t87_regular_roundtrip : forall P near c t st ra rb rc rd x rest ops c' s
       Some (stored, mkT87St (t87_set (Z.to_nat (Z.abs qs)) (ts_ctx st) t') (ts_r365 st) (ts_r366 st) (ts_runindex st), rest) /\
     ctx_rel t' c'.
 Proof.
-  intros P near c t st ra rb rc rd x rest ops c' stored HP Hn Hx p qs Hqs Hnth (RA & RB & RC & RN) HN HA HA2 HB Henc.
+  intros P near c t st ra rb rc rd x rest ops c' stored HP Hn Hx p qs Hnth (RA & RB & RC & RN) HN HA HA2 HB Henc.
   destruct (regular_enc_shape P near true c qs ra rb rc x HP Hn Hx) as (Hshape & Hm0 & Hm1 & Her & Heabs & Hpv & Hk).
   fold p in Hshape, Hm0, Hm1, Her, Heabs, Hpv.
   rewrite Hshape in Henc. inversion Henc as [[Hops Hc' Hst]]. clear Henc.
@@ -332,7 +334,7 @@ Proof.
   (* context number and sign *)
   pose proof (quantizeGradient_range p (rd - rb)) as Q1. pose proof (quantizeGradient_range p (rb - rc)) as Q2.
   pose proof (quantizeGradient_range p (rc - ra)) as Q3.
-  rewrite (t87_context_eq (t87_quant p (rd - rb)) (t87_quant p (rb - rc)) (t87_quant p (rc - ra)) Q1 Q2 Q3 Hqs).
+  rewrite (t87_context_eq_all (t87_quant p (rd - rb)) (t87_quant p (rb - rc)) (t87_quant p (rc - ra)) Q1 Q2 Q3).
   change ((t87_quant p (rd - rb) * 9 + t87_quant p (rb - rc)) * 9 + t87_quant p (rc - ra)) with qs. fold sg.
   rewrite Hnth.
   (* prediction *)
@@ -383,6 +385,20 @@ Proof.
     cbv zeta in Hrec. unfold p. rewrite Hrec. reflexivity.
   - unfold ctx_rel. try rewrite <- Hc'. rewrite Hupd. cbn. auto.
 Qed.
+
+Theorem t87_regular_roundtrip : forall P near c t st ra rb rc rd x rest ops c' stored,
+  2 <= P <= 16 -> 0 <= near <= near_max P -> 0 <= x <= 2 ^ P - 1 ->
+  let p := jls_params P near in
+  let qs := context_qs p ra rb rc rd in
+  qs <> 0 ->
+  nth (Z.to_nat (Z.abs qs)) (ts_ctx st) (mkT87Ctx 0 0 0 0) = t -> ctx_rel t c ->
+  1 <= cN c -> 0 <= cA c <= cN c * 65536 -> cA c < 8388608 -> Z.abs (cB c) < 8388608 ->
+  regular_enc PkNear true p c qs ra rb rc x = (ops, c', stored) ->
+  exists t',
+    t87_regular p st ra rb rc rd (ops_bits ops ++ rest) =
+      Some (stored, mkT87St (t87_set (Z.to_nat (Z.abs qs)) (ts_ctx st) t') (ts_r365 st) (ts_r366 st) (ts_runindex st), rest) /\
+    ctx_rel t' c'.
+Proof. intros P near c t st ra rb rc rd x rest ops c' stored HP Hn Hx p qs _. apply t87_regular_roundtrip_all; assumption. Qed.
 
 (* ---------- run length ---------- *)
 
